@@ -2,8 +2,8 @@
     Conn (connection.go handleFrames in front of the streams map), with or without a qlog tracer.
     The model's verdict for the frame sequence is the connection's close error: frames are handled
     in order by the StreamsMap model; the first error ends the packet (no later frame of the packet
-    has any effect) and the connection. A tracer does not occur in the model: the verdict must not
-    depend on it. *)
+    has any effect) and the connection. The qlog tracer is a parameter of the model: it only matters
+    when a malformed frame follows the failing one (the parser then goes on and its error wins). *)
 From Coq Require Import List ZArith Bool String.
 From V Require Import Gen.Params Lib.Corr Lib.Hex.
 From V Require Export StreamsMap.Model.
